@@ -286,8 +286,9 @@ def execute(plan, tape):
     res.steps = sim.steps
     res.inter_sig = digest_of((n0, n1), plan['axis'], optshape, sim.schedule_signature())
     res.nontrivial = (n0 != n1) or sim.stats.get('probe.completion_order_permuted', 0) > 0
-    res.digest = digest_of(sim.log, fingerprint(out) if isinstance(out, list) else repr(type(out)),
-                           res.vclass, res.signature)
+    fps = fingerprint(out) if isinstance(out, (list, tuple)) else repr(type(out))
+    res.digest = digest_of(sim.log, fps, res.vclass, res.signature)
+    res.rdigest = digest_of(fps, res.vclass, res.signature)
     return res
 
 
